@@ -783,6 +783,12 @@ var c13PinnedCases = []c13Pinned{
 	{c13SigParam, []string{"a = macro(x) { quote(unquote(x) + 1) }; m = macro(a) { quote(unquote(a) * 2) }", "println(m(5))", "println(a(1))"}, []string{"", "println(5 * 2)", "println(1 + 1)"}},
 	{c13SigParam, []string{"m = macro(m) { quote(unquote(m) + 1) }", "println(m(1))", "println(m(2))"}, []string{"", "println(1 + 1)", "println(2 + 1)"}},
 	{c13SigParam, []string{"m = macro(sin) { quote(unquote(sin) + 1) }", "m(2)"}, []string{"", "2 + 1"}},
+	// parameters and macros named like the names Environment.Get answers itself (regression cases since /repo 21c63fb)
+	{c13SigParam, []string{"m = macro(info) { quote(unquote(info) + 1) }", "m(2)", "x = 5; m(x * 2)"}, []string{"", "2 + 1", "x = 5; x * 2 + 1"}},
+	{c13SigParam, []string{"m = macro(self) { quote([unquote(self), unquote(self)]) }", "m(2)", "m(println(3))"}, []string{"", "[2, 2]", "[println(3), println(3)]"}},
+	{c13SigParam, []string{"m = macro(a, info, self) { quote(unquote(self) - unquote(info) * unquote(a)) }", "m(1 + 1, 2 + 2, 3 + 3)"}, []string{"", "3 + 3 - (2 + 2) * (1 + 1)"}},
+	{c13SigParam, []string{"info = macro(x) { quote(unquote(x) + 1) }", "info(2)"}, []string{"", "2 + 1"}},
+	{c13SigParam, []string{"self = macro(x) { quote(unquote(x) + 1) }", "self(2)", "f = func(n) { self(n) }; f(4)"}, []string{"", "2 + 1", "f = func(n) { n + 1 }; f(4)"}},
 }
 
 // probes of behaviour OUTSIDE the statement (recorded as notes, never a verdict)
@@ -799,7 +805,6 @@ var c13Probes = []struct{ what, src string }{
 	{"macro named like an extension function is silently not defined", "sin = macro(a) { quote(unquote(a) + 1) }; sin(2)"},
 	{"re-definition of a macro with an all-caps (constant) name", "MAC = macro(a) { quote(unquote(a) + 100) }; println(MAC(1)); MAC = macro(a) { quote(unquote(a) + 200) }; println(MAC(1))"},
 	{"a macro call inside a template is not expanded (single pass)", "n = macro(a) { quote(unquote(a) + 1) }; m = macro(a) { quote(n(unquote(a))) }; m(2)"},
-	{"parameter named info / self (reserved lookups of Environment.Get)", "m = macro(info) { quote(unquote(info) + 1) }; m(2)"},
 	{"macro definition nested in a function body is not a definition", "f = func() { k = macro(a) { quote(unquote(a)) }; k(1) }; f()"},
 	{"macro body calls a builtin before its quote while being expanded", "m = macro(a) { len(\"ab\"); quote(unquote(a)) }; m(1)"},
 }
